@@ -292,13 +292,11 @@ func (gs GenesisState) ValidateOperatorUSDValues(operators map[string]struct{}, 
 				operatorUSDValue,
 			)
 		}
+		// the value of an AVS is written at its epoch end; an operator that opted in since
+		// then has zero values and the AVS may not have an entry yet: treat that as zero.
 		avsUSDValue, ok := avsUSDValues[avsAddress]
 		if !ok {
-			return errorsmod.Wrapf(
-				ErrInvalidGenesisData,
-				"the parsed AVS address should be in the avsUSDValues map, AVS: %s, avsUSDValues: %+v",
-				avsAddress, avsUSDValues,
-			)
+			avsUSDValue = DecValueField{Amount: sdkmath.LegacyZeroDec()}
 		}
 
 		if operatorUSDValue.OptedUSDValue.TotalUSDValue.GT(avsUSDValue.Amount) {
